@@ -4,6 +4,10 @@ go 1.21
 
 require (
 	github.com/anishathalye/porcupine v1.3.0
+	github.com/atomix/atomix/api v1.1.0
+	github.com/atomix/atomix/protocols/rsm v1.1.0
+	github.com/atomix/atomix/runtime v1.1.2
+	github.com/atomix/atomix/sidecar v0.4.4
 	github.com/atomix/go-sdk v0.13.3
 	github.com/gogo/protobuf v1.3.2
 	github.com/onosproject/onos-api/go v0.10.32
@@ -16,10 +20,6 @@ require (
 
 require (
 	github.com/Shopify/sarama v1.31.1 // indirect
-	github.com/atomix/atomix/api v1.1.0 // indirect
-	github.com/atomix/atomix/protocols/rsm v1.1.0 // indirect
-	github.com/atomix/atomix/runtime v1.1.2 // indirect
-	github.com/atomix/atomix/sidecar v0.4.4 // indirect
 	github.com/bits-and-blooms/bitset v1.3.1 // indirect
 	github.com/bits-and-blooms/bloom/v3 v3.3.1 // indirect
 	github.com/cenkalti/backoff v2.2.1+incompatible // indirect
